@@ -82,6 +82,11 @@ def one_run(run, graph, seed, cipher, hashing):
             files.append(s.write_file(name, body))
             for part in (body[:22], body[-222:-200], name.split('/')[0].encode()[4:], name.split('/')[1].encode()[5:-4]):
                 needles.setdefault('file content or name', set()).update(forms(part))
+        # the same new content many times in a row inside one snapshot (repeated records, sparse runs): several workers hold copies of one
+        # chunk that is not stored yet
+        block = canary('repeated') + rng.randbytes(240)
+        files.append(s.write_file('repeated-%s.bin' % canary('rname').decode()[-8:], rng.randbytes(150) + block * 14 + rng.randbytes(90)))
+        needles.setdefault('file content or name', set()).update(forms(block[:24]))
         note = canary('note').decode()
         needles['note'] = forms(note.encode())
         empty = s.write_file('only-empty-%s' % canary('ename').decode()[-8:], b'')
